@@ -78,7 +78,22 @@ def s_diagrams(draw):
         "single_array": k == 1 and draw(st.booleans()),
     }
     return {"fam": fam, "n_inf": n_inf, "opts": opts, "axes": draw(st.sampled_from(["current", "given_current", "given_not_current"])),
-            "dtype": draw(st.sampled_from(["float64", "float64", "float32"])), "twice": draw(st.booleans())}
+            "dtype": draw(st.sampled_from(["float64", "float64", "float32"])), "twice": draw(st.booleans()),
+            # where the infinite bars are born: at births of finite points, at the largest finite death, or after every finite death
+            "inf_birth": draw(st.sampled_from(["existing", "existing", "at_max_death", "after_all_deaths", "before_all_births"]))}
+
+
+def _inf_birth(case, d, i, all_dgms):
+    mode = case.get("inf_birth", "existing")
+    vals = [v for dd in all_dgms for p in dd for v in p]
+    lo, hi = min(vals), max(vals)
+    if mode == "at_max_death":
+        return hi
+    if mode == "after_all_deaths":
+        return hi + 0.5 * (hi - lo) + 1.0 + i
+    if mode == "before_all_births":
+        return lo - 0.25 * (hi - lo) - 1.0 - i
+    return d[i % len(d)][0]
 
 
 def check_diagrams(case, ctx):
@@ -90,7 +105,7 @@ def check_diagrams(case, ctx):
         ctx.skip("malformed (shrinker)")
     user_arrays = []
     for d, ni in zip(fam["dgms"], case["n_inf"]):
-        rows = [list(p) for p in d] + [[d[i % len(d)][0], INF] for i in range(ni)]
+        rows = [list(p) for p in d] + [[_inf_birth(case, d, i, fam["dgms"]), INF] for i in range(ni)]
         user_arrays.append(np.array(rows, dtype=dt))
     pristine = [a.copy() for a in user_arrays]
     ctx.label("dtype:" + str(np.dtype(dt)), "twice" if case.get("twice") else "once")
@@ -134,7 +149,7 @@ def _check_diagrams_once(case, ctx, user_arrays, pristine, pass_no):
             warnings.simplefilter("ignore")
             ctx.call(plot_diagrams, arg, **kw)
         if pass_no == 0:
-            ctx.label("axes:" + case["axes"], "inf" if has_inf else "finite", "lifetime" if o["lifetime"] else "birth_death",
+            ctx.label("axes:" + case["axes"], "inf" if has_inf else "finite", ("inf_birth:" + case.get("inf_birth", "existing")) if has_inf else None, "lifetime" if o["lifetime"] else "birth_death",
                       "xy_range" if o["xy_range"] else "auto_range", "plot_only" if o["plot_only"] else None)
             ctx.nontrivial(len(shown) >= 2 and min(len(d) for d in shown) >= 3)
         untouched(ctx, others)
